@@ -12,7 +12,7 @@ from bs4.formatter import Formatter, HTMLFormatter, XMLFormatter
 from bs4.dammit import EntitySubstitution
 from props.c05 import Batch, G_to_str, build_from_origin
 
-RULE = ("trees as for C05, plus documents nested 140 / 300 (thorough: 600) elements deep (documents written from a random tree model and parsed, token soup, API-built and edited trees, "
+RULE = ("render histories on the same objects (complete renderings of descendants then ancestors and back; renderings that raise part-way at each string / a few strings; an edit; each followed by a comparison with the rendering of a fresh copy); trees as for C05, plus documents nested 140 / 300 (thorough: 600) elements deep (documents written from a random tree model and parsed, token soup, API-built and edited trees, "
         "HTML- and XML-flavoured, nested pre/textarea/script, void elements, empty and blank strings, every string class); "
         "starting element: the root and random inner tags (every tag of the tree in the thorough tier for small trees); "
         "formatter: every registry name of the tree's flavour (minimal, html, html5, html5-4.12, None) and Formatter objects "
@@ -231,7 +231,89 @@ def pretty_token_level(ctx, batch, case, fe, dumped, pretty_body, py_rep):
                            G.dec_model_flat(r[1])[:14], G.dec_model_flat(r[0])[:14]))
 
 
-def check_tree(ctx, batch, origin, root, xml, parsed, every_start=False):
+class _Refused(Exception):
+    pass
+
+
+def _refusing_formatter(el, refuse):
+    """The 'minimal' formatter of el's flavour whose substitution function raises at one chosen string."""
+    base = el.formatter_for_name("minimal")
+
+    def fn(text):
+        if text == refuse:
+            raise _Refused(text)
+        return EntitySubstitution.substitute_xml(text)
+    return Formatter(language=base.language, entity_substitution=fn, void_element_close_prefix=base.void_element_close_prefix,
+                     cdata_containing_tags=base.cdata_containing_tags, empty_attributes_are_booleans=base.empty_attributes_are_booleans,
+                     indent=base.indent)
+
+
+def render_histories(ctx, origin, root):
+    """A rendering is a function of the tree and the formatter, not of earlier renderings of the same objects:
+    after other renderings of the element, of its descendants and ancestors — complete ones and ones that raised part-way
+    (a substitution function refusing one string), plain and pretty, with edits in between — prettify() / decode() of the
+    element give what they give on a fresh copy of the tree."""
+    import copy
+    rng = ctx.rng
+    tags = G.tags_of(root)
+    inner = tags[1:]
+    watched = [root] + rng.sample(inner, min(1, len(inner)))
+
+    def renderings(t):
+        return (t.decode(indent_level=0, formatter="minimal"), t.decode(formatter="minimal"), t.decode(indent_level=0, formatter="html"))
+
+    def expect_fresh(step, history):
+        for t in watched:
+            if t is not root and not G.is_ancestor_or_self(root, t):
+                continue                      # edited out of the tree
+            fresh = copy.copy(t)
+            got, want = renderings(t), renderings(fresh)
+            ctx.case(("history", step, got[0]), nontrivial=len(history) > 1)
+            if got != want:
+                k = [i for i in range(3) if got[i] != want[i]][0]
+                ctx.fail({"origin": origin, "history": history, "start": G.qname(t) if t is not root else "[root]",
+                          "which": ["prettify minimal", "decode minimal", "prettify html"][k]},
+                         "a rendering depends on earlier renderings of the same objects (it differs from the rendering of a fresh copy of the tree)",
+                         got[k][:400], want[k][:400])
+                return False
+        return True
+    history = []
+    if not expect_fresh(0, ["(nothing before)"]):
+        return
+    # complete renderings of descendants, then ancestors, and the other way round
+    for t in (list(reversed(watched)) + watched):
+        t.prettify()
+        t.decode()
+        history.append("prettify+decode %s" % (G.qname(t) if t is not root else "[root]"))
+    if not expect_fresh(1, list(history)):
+        return
+    # renderings that raise part-way: at every string of a small tree, at a few of a large one
+    strings = sorted(G.value_texts(root))
+    if len(strings) > 8:
+        strings = rng.sample(strings, 3)
+    for sref in strings:
+        for t in watched:
+            f = _refusing_formatter(t, sref)
+            for lvl in (0, None):
+                try:
+                    t.decode(indent_level=lvl, formatter=f)
+                    outcome = "completed"
+                except _Refused:
+                    outcome = "raised"
+                history.append("decode(indent_level=%r) of %s with a substitution function refusing %r: %s"
+                               % (lvl, G.qname(t) if t is not root else "[root]", sref[:30], outcome))
+        if not expect_fresh(2, history[-8:]):
+            return
+    # an edit, and again
+    if tags:
+        target = rng.choice(tags)
+        target.append(rng.choice(["tail text", " "]))
+        target.insert(0, root.new_tag("b") if isinstance(root, BeautifulSoup) else Tag(name="b"))
+        history.append("append a string and insert <b> in %s" % (G.qname(target) if target is not root else "[root]"))
+        expect_fresh(3, history[-6:])
+
+
+def check_tree(ctx, batch, origin, root, xml, parsed, every_start=False, histories=True):
     rng = ctx.rng
     inner = G.tags_of(root)[1:]
     starts = [root] + (inner if every_start else rng.sample(inner, min(2, len(inner))))
@@ -320,6 +402,8 @@ def check_tree(ctx, batch, origin, root, xml, parsed, every_start=False):
                           ctx.disagree("whitespace-preserving blocks ~ Spec.RenderSpec.pw_blocks_spec", case, blocks[:4], [G_to_str(t) for t in r][:4]))
     if len(ctx.samples) < 4 and root.contents:
         ctx.sample({"origin": origin, "prettify": root.prettify()[:300]})
+    if histories and len(G.all_elements(root)) <= 150:
+        render_histories(ctx, origin, root)          # last: it edits the tree
 
 
 def indent_cases(ctx, batch):
@@ -379,7 +463,8 @@ def run(ctx):
                 continue
             ctx.count("trees_" + origin["kind"])
             small = len(G.all_elements(root)) <= 12
-            check_tree(ctx, batch, origin, root, xml, parsed, every_start=(ctx.thorough and small) or k < len(FIXED))
+            check_tree(ctx, batch, origin, root, xml, parsed, every_start=(ctx.thorough and small) or k < len(FIXED),
+                       histories=ctx.thorough or k < len(FIXED) or rng.random() < 0.35)
             if len(batch.cmds) > 4000:
                 batch.flush()
         batch.flush()
